@@ -2,11 +2,11 @@ import AiocoapModel.Blockwise.BlockOptC
 /-!
 Model of the block-wise client `aiocoap.protocol.BlockwiseRequest` (protocol.py):
 
-* the Block1 loop of `_run` (protocol.py:876-1009 of the fixed tree): fragmentation threshold, `_extract_block`,
+* the Block1 loop of `_run` (protocol.py:884-1017 of the fixed tree): fragmentation threshold, `_extract_block`,
   the cursor update after an acknowledgement incl. the server's size reduction, the checks;
-* `_complete_by_requesting_block2` (protocol.py:1091-1147) with
+* `_complete_by_requesting_block2` (protocol.py:1099-1163) with
   `Message._generate_next_block2_request` and `Message._append_response_block`
-  (message.py:474-525).
+  (message.py:473-528).
 
 The client is a machine `Phase` that has exactly one request outstanding until it is `done`;
 `step` consumes the response to that request.  `runClient` folds `step` over a list of
@@ -75,7 +75,7 @@ structure B1State where
 deriving Repr, DecidableEq
 
 /-- `assembled_response`: first response plus appended payloads; `block2` is the option of the
-last appended block (message.py:491) -/
+last appended block (message.py:495) -/
 structure Asm where
   code : Nat
   etag : Option Bytes
@@ -95,11 +95,11 @@ def isSuccessful (code : Nat) : Bool := decide (64 ≤ code ∧ code < 96)
 /-- `CONTINUE` = 2.31 -/
 def codeContinue : Nat := 95
 
-/-- protocol.py:907-911 -/
+/-- protocol.py:914-918 -/
 def threshold (cfg : Cfg) (szx : Nat) : Nat :=
   if szx ≥ 6 then cfg.maxPayload else 2 ^ (szx + 4)
 
-/-- protocol.py:913-923: the request of the current round of the Block1 loop; `none` is the
+/-- protocol.py:920-930: the request of the current round of the Block1 loop; `none` is the
 `BadRequest` of `_extract_block`. Size1 is set on block 0 only. -/
 def nextRequest (cfg : Cfg) (st : B1State) : Option Req :=
   if cfg.payload.length > threshold cfg st.szx then
@@ -117,13 +117,13 @@ def enterB1 (cfg : Cfg) (st : B1State) : Phase :=
   | none => .done (.error .badRequest)
   | some cur => .b1 st cur
 
-/-- protocol.py:973-975 `while block1.size_exponent < size_exp: block_cursor *= 2; size_exp -= 1`;
+/-- protocol.py:980-982 `while block1.size_exponent < size_exp: block_cursor *= 2; size_exp -= 1`;
 arguments: the server's exponent, then `size_exp`, `block_cursor`; result `(size_exp, block_cursor)`. -/
 def reduce (target : Nat) : Nat → Nat → Nat × Nat
   | 0, cursor => (0, cursor)
   | szx + 1, cursor => if target < szx + 1 then reduce target szx (cursor * 2) else (szx + 1, cursor)
 
-/-- `Message._generate_next_block2_request` (message.py:496-525); `none` is its assertion. The
+/-- `Message._generate_next_block2_request` (message.py:499-528); `none` is its assertion. The
 request repeats the template (last Block1-phase request) with an empty payload, no Block1 and
 the Block2 option capped to the client's maximum exponent. -/
 def nextBlock2Request (clientMax : Nat) (template : Req) (asm : Asm) : Option Req :=
@@ -140,21 +140,25 @@ def enterB2 (cfg : Cfg) (template : Req) (asm : Asm) : Phase :=
 
 def bodyOf (r : Resp) : Body := { code := r.code, etag := r.etag, payload := r.payload }
 
-/-- Entry of `_complete_by_requesting_block2` (protocol.py:1091-1114): a response without a
-Block2 option or without the more flag is the result; the first block must be number 0 and
-(after the fix) of valid size. -/
+/-- Entry of `_complete_by_requesting_block2` (protocol.py:1099-1136): a response without a
+Block2 option is the result; otherwise the first block must start at offset 0 (after the fix:
+whatever its more flag); without the more flag it is the result; with it, it must be number 0
+and (after the fix) of valid size. -/
 def completeBlock2 (cfg : Cfg) (template : Req) (initial : Resp) : Phase :=
   match initial.block2 with
   | none => .done (.ok (bodyOf initial))
   | some b2 =>
-    if !b2.more then .done (.ok (bodyOf initial))
+    -- the application request carries no Block2 option (out of the model), so the expected
+    -- start of the first block is 0 -- also for a block that claims to be the last
+    if b2.start ≠ 0 then .done (.error .unexpectedBlock2)
+    else if !b2.more then .done (.ok (bodyOf initial))
     else if b2.num ≠ 0 then .done (.error .unexpectedBlock2)
     else if !b2.validFor initial.payload.length then .done (.error .unexpectedBlock2)
     else enterB2 cfg template
       { code := initial.code, etag := initial.etag, payload := initial.payload, block2 := b2 }
 
 /-- the Block1 option describing the request on the wire; an unfragmented request counts as the
-single final block 0 (protocol.py:956-963, after the fix) -/
+single final block 0 (protocol.py:963-970, after the fix) -/
 def sentBlock1 (st : B1State) (cur : Req) : BlockOpt :=
   cur.block1.getD { num := 0, more := false, szx := st.szx }
 
@@ -163,12 +167,12 @@ def step (cfg : Cfg) : Phase → Resp → Phase
   | .done o, _ => .done o
   | .b1 st cur, r =>
     match r.block1 with
-    | none => completeBlock2 cfg cur r                     -- protocol.py:940-946 `break`
+    | none => completeBlock2 cfg cur r                     -- protocol.py:947-953 `break`
     | some a =>
       let sent := sentBlock1 st cur
       if a.num ≠ sent.num then .done (.error .unexpectedBlock1)   -- "Block number mismatch"
       else
-        let sc := reduce a.szx st.szx (st.cursor + 1)      -- protocol.py:968-975
+        let sc := reduce a.szx st.szx (st.cursor + 1)      -- protocol.py:975-982
         if !sent.more then
           if a.more || r.code == codeContinue
           then .done (.error .unexpectedBlock1)            -- "Server asked for more data at end of body"
@@ -180,8 +184,9 @@ def step (cfg : Cfg) : Phase → Resp → Phase
     match r.block2 with
     | none => .done (.ok (bodyOf r))                       -- "accepting single response"
     | some b2 =>
-      -- Message._append_response_block (message.py:474-494)
-      if !b2.validFor r.payload.length then .done (.error .unexpectedBlock2)
+      -- Message._append_response_block (message.py:473-497; the code comparison is the fix)
+      if r.code ≠ asm.code then .done (.error .unexpectedBlock2)   -- "Response code changed"
+      else if !b2.validFor r.payload.length then .done (.error .unexpectedBlock2)
       else if b2.start ≠ asm.payload.length then .done (.error .notImplemented)
       else if r.etag ≠ asm.etag then .done (.error .resourceChanged)
       else
